@@ -37,16 +37,16 @@ Section C18.
       cnet_batch T t0 t1 tmul c X w = map (fun i => cnet_pos c (prow X (seq 0 w) i)) (seq 0 (length X)).
   Proof. exact (cnet_batch_rowwise T t0 t1 tadd tmul SRth). Qed.
 
-  (* (b) On every well-formed network and every binary row, the positional evaluation (cut column
-     found by `scope.index(or_id)`, columns deleted by position, vectorised CLT gather on the
-     remaining columns) is the OR-tree semantics of the row read by VARIABLE ID.
-     `_partial`: the leaves on the right-hand side are evaluated by the full-evidence gather
-     (cnet_gat); that gather = message passing (cnet_val, the function the normalisation theorems
-     speak about) on complete rows is compared on every row of every run (flag 4), not proved. *)
-  Theorem C18_code_semantics_partial : forall n : ornode, wf_cnet n ->
+  (* (b) On every well-formed network whose leaf CLTs have a predecessor-free root with two equal
+     CPT rows, and on every binary row, the positional evaluation (cut column found by
+     `scope.index(or_id)`, columns deleted by position, vectorised CLT gather on the remaining
+     columns, the root reading the last column) is the OR-tree semantics of the row read by
+     VARIABLE ID, with the leaves evaluated by message passing - the function the normalisation
+     theorems below speak about (gather = message passing: Proofs/CltGather.v). *)
+  Theorem C18_code_semantics : forall n : ornode, wf_cnet n -> groot_ok T t0 n ->
       forall xs, length xs = length (osc T n) -> binary xs ->
-      cnet_pos n xs = cnet_gat n (row_of (osc T n) xs).
-  Proof. exact (cnet_pos_sem T t0 t1 tadd tmul). Qed.
+      cnet_pos n xs = cnet_val n (row_of (osc T n) xs).
+  Proof. exact (cnet_pos_val T t0 t1 tadd tmul SRth). Qed.
 
   (* --- the three facts and their consequences, for every well-formed network of any size --- *)
   Theorem C18_local : forall n : ornode, wf_cnet n -> forall r v c,
@@ -111,6 +111,8 @@ Section C18_check.
   (* the per-run certificate evaluated on every learned object implies the hypotheses above *)
   Theorem C18_checker_sound : forall n : ornode T, wf_cnetb T t0 n = true -> wf_cnet T t0 n.
   Proof. exact (wf_cnetb_sound T t0). Qed.
+  Theorem C18_root_checker_sound : forall n : ornode T, groot_okb T t0 teqb n = true -> groot_ok T t0 n.
+  Proof. exact (groot_okb_sound T t0 teqb teqb_sound). Qed.
   Theorem C18_norm_checker_sound : forall n : ornode T,
       norm_cnetb T t0 t1 tadd teqb n = true -> norm_cnet T t0 t1 tadd n.
   Proof. exact (norm_cnetb_sound T t0 t1 tadd teqb teqb_sound). Qed.
@@ -120,7 +122,7 @@ Print Assumptions C18_semantics_cut0.
 Print Assumptions C18_semantics_cut1.
 Print Assumptions C18_semantics_leaf.
 Print Assumptions C18_code_batch_rowwise.
-Print Assumptions C18_code_semantics_partial.
+Print Assumptions C18_code_semantics.
 Print Assumptions C18_local.
 Print Assumptions C18_marginal.
 Print Assumptions C18_total_mass.
@@ -129,4 +131,5 @@ Print Assumptions C18_fit_wf.
 Print Assumptions C18_fit_root_unsplit.
 Print Assumptions C18_fit_normalised.
 Print Assumptions C18_checker_sound.
+Print Assumptions C18_root_checker_sound.
 Print Assumptions C18_norm_checker_sound.
